@@ -202,7 +202,17 @@ func errPipe(msg string) {
 	}
 }
 
+// libMode: the probe is called by a stage written in another language (the
+// Python stub pyprobe_<STAGE>): it observes, applies delays and computes the
+// outputs, but leaves writing _outs / _stage_defs - and failing - to the
+// caller, to which it reports through <meta>/_probe_result.
+var libMode bool
+
 func main() {
+	if len(os.Args) > 1 && os.Args[1] == "--lib" {
+		libMode = true
+		os.Args = append(os.Args[:1], os.Args[2:]...)
+	}
 	if len(os.Args) < 6 {
 		fmt.Fprintln(os.Stderr, "probe: usage: probe STAGE [spec] <phase> <meta> <files> <journal>")
 		os.Exit(2)
@@ -373,8 +383,27 @@ func main() {
 	if (fault == "missing_key" || fault == "wrong_type") && phase == "split" {
 		fault = "bad_stage_defs"
 	}
+	pyFault := ""
+	if strings.HasPrefix(fault, "py_") {
+		if libMode {
+			pyFault = fault
+		} else {
+			fault = "" // only a Python stage can fail that way
+		}
+	} else if libMode && fault != "" {
+		switch fault {
+		case "trunc_outs", "no_outs", "null_outs", "missing_key", "wrong_type", "bad_stage_defs", "exit_after_outs":
+			fault = "" // the adapter, not the stage code, writes the outputs
+		}
+	}
 	if fault != "" {
 		emit(&event{Ev: "fault", Stage: stage, Phase: phase, Job: job, Fault: fault, Attempt: attempt})
+	}
+	if pyFault != "" {
+		// the caller fails in its own way
+		b, _ := json.Marshal(map[string]interface{}{"job": job, "py_fault": pyFault})
+		os.WriteFile(filepath.Join(meta, "_probe_result"), b, 0644)
+		os.Exit(0)
 	}
 	switch fault {
 	case "errpipe":
@@ -592,7 +621,14 @@ func main() {
 			}
 		}
 	}
-	if outBytes == nil {
+	if libMode {
+		key := "outs"
+		if phase == "split" {
+			key = "stage_defs"
+		}
+		b, _ := json.Marshal(map[string]interface{}{"job": job, key: json.RawMessage(outBytes)})
+		os.WriteFile(filepath.Join(meta, "_probe_result"), b, 0644)
+	} else if outBytes == nil {
 		os.Remove(filepath.Join(meta, outName))
 	} else {
 		tmp := filepath.Join(meta, outName+".probe_tmp")
